@@ -105,6 +105,9 @@ func (e *Env) runHandshake() error {
 			dcs[id] = ds.Addr()
 		}
 		e.Client.SetDCList(dcs)
+		for id := range dcs {
+			dcs[id] = "127.0.0.1:9" // the caller's map, reused after the call
+		}
 	}
 	if e.Sc.ReseedGlobal != nil {
 		mathrand.Seed(*e.Sc.ReseedGlobal) //nolint:staticcheck // the point is to control the global generator
@@ -142,6 +145,24 @@ func (e *Env) runHandshake() error {
 			}(i, oc)
 		}
 		close(start)
+	}
+	if e.Sc.FirstDialRefused {
+		e.Srv.Suspend()
+		func() {
+			defer func() {
+				if r := recover(); r != nil {
+					e.Res.Notes = append(e.Res.Notes, fmt.Sprintf("first attempt (server down) panicked: %v", r))
+				}
+			}()
+			if err := e.Client.CreateConnection(); err == nil {
+				e.Res.Notes = append(e.Res.Notes, "first attempt (server down) returned nil")
+			} else {
+				e.Res.Notes = append(e.Res.Notes, "first attempt (server down): "+err.Error())
+			}
+		}()
+		if err := e.Srv.Resume(); err != nil {
+			return err
+		}
 	}
 	e.Connect(e.patience(), abort)
 	for i := 0; i < e.Sc.Companions; i++ {
